@@ -10,6 +10,8 @@ from typing import Any, Dict, Iterable, List, Optional, Tuple
 from ..core import Prop
 
 I_MIN, I_MAX = -2**63, 2**63 - 1
+DUR_EXACT_US = 2**34 * 10**6       # below this many microseconds int(total_seconds()) is provably the exact truncation
+DUR_MAX_S = 315576000000           # CEL's duration range, seconds
 RESERVED = {"as", "break", "const", "continue", "else", "false", "for", "function", "if", "import", "in", "let",
             "loop", "package", "namespace", "null", "return", "true", "var", "void", "while"}
 IDENT = re.compile(r"^[_a-zA-Z][_a-zA-Z0-9]*$")
@@ -210,7 +212,11 @@ def ref_encode(toks: List[str], i: int = 0) -> Tuple[Any, int]:
         return "%04d-%02d-%02dT%02d:%02d:%02d%s" % (y, mo, d, h, mi, s, z), i + 1
     if tag == "cD":
         us = int(a)
-        q = abs(us) // 1000000
+        q = abs(us) // 1000000                      # truncation toward zero of the duration, in whole seconds
+        if abs(us) >= DUR_EXACT_US and us % 1000000:
+            # from 2^34 s on a binary64 number of seconds no longer separates microseconds: "the seconds" of such a duration
+            # are the double nearest to µs/10^6 (Python's int/int true division is correctly rounded), truncated
+            q = int(abs(us) / 1000000)
         return "%ds" % (-q if us < 0 else q), i + 1
     if tag == "cl":
         n, i, xs = int(a), i + 1, []
@@ -484,10 +490,15 @@ def gen_pv(rng: random.Random, depth: int) -> str:
             secs = rng.choice([0, 1, -1, 59, 60, 3600, 86400, -86400, 315576000000, -315576000000, 315575999999,
                                rng.randint(-315576000000, 315576000000)])
             return f"cD:{secs * 1000000}"
-        # fractional, |d| < 2^33 s (beyond 2^34 s total_seconds() rounds to a double before int())
-        us = rng.choice([1, -1, 999999, -999999, 1000001, -1000001, 1999999, -1999999, 500000, -1500000,
-                         rng.randint(-2**33 * 10**6, 2**33 * 10**6), rng.randint(-10**7, 10**7)])
-        return f"cD:{us}"
+        if r < 0.85:   # fractional, |d| < 2^34 s: the exact truncation (Props.C15.duration_seconds_truncate)
+            us = rng.choice([1, -1, 999999, -999999, 1000001, -1000001, 1999999, -1999999, 500000, -1500000,
+                             rng.randint(-2**33 * 10**6, 2**33 * 10**6), rng.randint(-10**7, 10**7),
+                             rng.choice([1, -1]) * (rng.randint(2**33, 2**34 - 1) * 10**6 + rng.choice([1, 999999, rng.randint(1, 999999)]))])
+            return f"cD:{us}"
+        # fractional up to the end of the CEL range: the float quotient of total_seconds() is modelled exactly (Cel.Time.totalSeconds)
+        secs = rng.choice([2**34, 2**34 + 1, 2**35, 2**36 - 1, 2**37 + 5, 2**38, DUR_MAX_S - 1, rng.randint(2**34, DUR_MAX_S - 1)])
+        frac = rng.choice([1, 2, 499999, 500000, 500001, 999998, 999999, rng.randint(1, 999999), rng.randint(999900, 999999)])
+        return f"cD:{rng.choice([1, -1]) * (secs * 10**6 + frac)}"
     if k == "cl":
         n = rng.randint(0, 3)
         return " ".join([f"cl:{n}"] + [gen_pv(rng, depth - 1) for _ in range(n)])
@@ -509,6 +520,64 @@ def gen_pv(rng: random.Random, depth: int) -> str:
         seen |= {js, py}
         keys.append(tok)
     return " ".join([f"cm:{len(keys)}"] + [k + " " + gen_pv(rng, depth - 1) for k in keys])
+
+
+# ---- systematic families (each stands for a class of change, see notes/C15.md "round 2") ---------------------------------------
+
+PAIR_POOL = [True, False, 0, 1, -1, 2, 0.0, 1.0, -0.0, "1", "", None, [], {}]
+TRIPLE_POOL = [True, 1, 1.0, "1", None]
+CONTEXT_SCALARS = [True, False, 0, 1, 1.0, -0.0, "", "true", None, I_MIN, I_MAX]
+
+
+def mixed_arrays() -> List[Any]:
+    """arrays over EVERY ordered pair / triple of scalar kinds (a conversion that is right item by item but takes a short cut for
+    arrays that look homogeneous from their first item is wrong on exactly one order of one pair), bare and nested"""
+    out: List[Any] = []
+    for a in PAIR_POOL:
+        for b in PAIR_POOL:
+            out.append([a, b])
+    for a in TRIPLE_POOL:
+        for b in TRIPLE_POOL:
+            for c in TRIPLE_POOL:
+                out.append({"k": [a, b, c]} if (len(out) % 2) else [[a, b, c]])
+    for a in [True, False, 1, 0, 1.0]:
+        for b in [True, False, 1, 0, 1.0]:
+            out.append({"flags": [a, a, a, b]})          # the odd one out comes last
+            out.append([[a, b], {"x": [b, a]}])
+    return out
+
+
+def contexts(x: Any) -> List[Any]:
+    """one scalar in every position a document can hold it: bare, array item (first / not first), member value, and the nine
+    two-level combinations (a walk that treats "direct item of a list" differently from "value of a member" differs on one of these)"""
+    return [x, [x], [0, x], [x, "s"], {"k": x}, {"a": 0, "k": x}, [[x]], [{"k": x}], {"k": [x]}, {"k": {"j": x}},
+            [[0, [x]]], {"k": [{"j": [x]}]}, [[], [x]], {"k": [], "j": [x, x]}]
+
+
+PV_CONTEXT_SCALARS = ["cb:1", "cb:0", "ci:1", "ci:0", "cu:1", "cd:4607182418800017408", "N", "cy:fbff", "cs:74",
+                      "ct:2009.2.13.23.31.30.999999.0", "ct:999.1.1.0.0.0.0.-330", "cD:-1500000", "cD:1500000"]
+
+
+def pv_contexts(x: str) -> List[str]:
+    """the same for CEL values handed to the encoder (bool / uint / timestamp / duration / bytes in every position)"""
+    return [x, f"cl:1 {x}", f"cl:2 ci:0 {x}", f"cl:2 {x} cs:74", f"cm:1 cs:6B {x}", f"cm:2 cs:61 ci:0 cs:6B {x}",
+            f"cl:1 cl:1 {x}", f"cl:1 cm:1 cs:6B {x}", f"cm:1 cs:6B cl:1 {x}", f"cm:1 cs:6B cm:1 cs:6A {x}",
+            f"cl:2 cl:0 cl:1 {x}", f"cm:1 cs:6B cl:1 cm:1 cs:6A cl:2 {x} {x}"]
+
+
+def duration_grid() -> List[int]:
+    """sign × whole seconds × sub-second part (the text is value-dependent: int() truncates, // floors, round() rounds, and the
+    float quotient behind total_seconds() changes regime at 2^34 s)"""
+    out = []
+    for whole in [0, 1, 2, 59, 60, 3599, 3600, 86399, 86400, 2**31 - 1, 2**31, 2**33, 2**34 - 1, 2**34, 2**34 + 1, 2**35 + 1,
+                  2**38, DUR_MAX_S - 1]:
+        for frac in [0, 1, 499999, 500000, 500001, 999999]:
+            for sign in (1, -1):
+                us = sign * (whole * 10**6 + frac)
+                if us not in out:
+                    out.append(us)
+    out += [DUR_MAX_S * 10**6, -DUR_MAX_S * 10**6]
+    return out
 
 
 LADDER_CLASSES = ["NoneType", "bool", "int", "float", "str", "bytes", "list", "tuple", "dict", "datetime", "timedelta", "object",
@@ -586,6 +655,24 @@ class C15(Prop):
         for i in range(n_docs):
             docs.append(gen_doc(rng, rng.choice([1, 2, 2, 3, 3, 4, 5, 6]), allow_big=True))
         npaths = 0
+        # systematic families: conversion + round trip only (their paths are short and of the shapes navigated elsewhere)
+        light: List[Any] = mixed_arrays()
+        for x in CONTEXT_SCALARS:
+            light += contexts(x)
+        for d in light:
+            cases.append({"kind": "rt", "doc": d})
+            cases.append({"kind": "conv", "doc": d})
+        for i, d in enumerate(light):
+            if i % 7 == 0:
+                cases.append({"kind": "dec", "doc": d, "ascii": i % 2 == 0})
+        # a random document whose arrays mix scalar kinds in random order, at random depth
+        for i in range(60 if quick else 3000):
+            arr = [rng.choice(PAIR_POOL[:12]) for _ in range(rng.randint(2, 6))]
+            d = arr
+            for _ in range(rng.randint(0, 3)):
+                d = {rng.choice(KEY_POOL): d} if rng.random() < 0.5 else [rng.choice(PAIR_POOL[:12]), d]
+            cases.append({"kind": "rt", "doc": d})
+            cases.append({"kind": "conv", "doc": d})
         for d in docs:
             cases.append({"kind": "rt", "doc": d})
             cases.append({"kind": "conv", "doc": d})
@@ -612,6 +699,11 @@ class C15(Prop):
                 cases.append({"kind": "nav", "doc": pool_doc, "path": [["k", k, st]], "runner": "IC"[(i + ord(st)) % 2]})
         for i in range(250 if quick else 5000):
             cases.append({"kind": "enc", "pv": gen_pv(rng, rng.choice([0, 0, 1, 2, 3]))})
+        for x in PV_CONTEXT_SCALARS:
+            for pv in pv_contexts(x):
+                cases.append({"kind": "enc", "pv": pv})
+        for us in duration_grid():
+            cases.append({"kind": "enc", "pv": f"cD:{us}"})
         for n in list(range(0, 14)) + [31, 32, 33, 57, 58, 255, 256]:
             for fill in (0x00, 0xFF, None):
                 b = bytes(rng.getrandbits(8) for _ in range(n)) if fill is None else bytes([fill] * n)
